@@ -59,7 +59,7 @@ def _gen(sd, cfg, num, seed):
     txt = open(os.path.join(vf.VERIF, "spec", "TokenAuth", "TokenAuth_%s.cfg" % cfg)).read()
     depth = int(re.search(r"Depth = (\d+)", txt).group(1))
     r = vf.tlc("TokenAuth", "TokenAuth_Gen", "TokenAuth_%s.cfg" % cfg, sd, workers=1, simulate="num=%d" % num,
-               depth=depth + 1, seed=seed, timeout=600)
+               depth=depth + 1, seed=seed, timeout=2000)
     if r.violated or r.error or r.rc != 0:
         raise vf.NoVerdict("behaviour generation %s failed: %s %s\n%s" % (cfg, r.violated, r.error, r.stdout[-2000:]))
     seen, out = set(), []
@@ -114,9 +114,9 @@ def run():
         with ThreadPoolExecutor(max_workers=12) as ex:
             f_bin = ex.submit(vf.go_test_compile, ov, "./" + PKG + "/", binp)
             f_mc = ex.submit(vf.tlc, "TokenAuth", "TokenAuth", "TokenAuth_MC.cfg" if thorough else "TokenAuth_MCq.cfg", sd,
-                             workers=W, timeout=1500)
-            f_neg = ex.submit(vf.tlc, "TokenAuth", "TokenAuth", "TokenAuth_MC_asis.cfg", sd, workers=2, timeout=600)
-            f_mc2 = ex.submit(vf.tlc, "TokenAuth", "TokenAuth", "TokenAuth_MC2.cfg", sd, workers=W, timeout=1500) if thorough else None
+                             workers=W, timeout=4000)
+            f_neg = ex.submit(vf.tlc, "TokenAuth", "TokenAuth", "TokenAuth_MC_asis.cfg", sd, workers=2, timeout=2000)
+            f_mc2 = ex.submit(vf.tlc, "TokenAuth", "TokenAuth", "TokenAuth_MC2.cfg", sd, workers=W, timeout=4000) if thorough else None
             f_gen = {g[0]: ex.submit(_gen, sd, g[0], g[2] if thorough else g[1], vf.SEED) for g in GENS}
             # 1. the design satisfies C21
             r = vf.tlc_ok(f_mc.result(), "TokenAuth MC")
@@ -156,7 +156,7 @@ def run():
         bad[k]["st"]["tcache"] = [t for t in bad[k]["st"]["tcache"] if t != bad[k]["call"]["t"]]
         bfs = vf.write_ndjson(os.path.join(sd, "selftest.ndjson"), [bad])
         nsh = 8 if thorough else 6
-        tmo = 2400 if thorough else 1200
+        tmo = 6000 if thorough else 3000
         mout = os.path.join(sd, "mut.ndjson")
         with ThreadPoolExecutor(max_workers=nsh + 2) as ex:
             fs = [ex.submit(_run_test, binp, sd, "TestVerifC21Replay",
